@@ -7,6 +7,8 @@ from .angle import LorentzVector
 
 
 def get_p(M, ma, mb):
+    # plain Python floats would be routed through float32 by tf.where / tf.cast
+    M, ma, mb = [tf.convert_to_tensor(i, tf.float64) for i in (M, ma, mb)]
     m2 = M * M
     m_p = (ma + mb) ** 2
     m_m = (ma - mb) ** 2
